@@ -320,7 +320,7 @@ impl CallStack {
     pub fn set_temporary_variable(
         &mut self,
         name: String,
-        value: Rc<Value>,
+        mut value: Rc<Value>,
         declare_new: bool,
         mut context_index: i32,
     ) -> Result<(), StoryError> {
@@ -347,8 +347,11 @@ impl CallStack {
 
         let old_value = context_element.temporary_variables.get(&name).cloned();
 
-        if let Some(old_value) = &old_value {
-            Value::retain_list_origins_for_assignment(old_value.as_ref(), value.as_ref());
+        if let Some(old_value) = &old_value
+            && let Some(retained) =
+                Value::retain_list_origins_for_assignment(old_value.as_ref(), value.as_ref())
+        {
+            value = Rc::new(retained);
         }
 
         context_element.temporary_variables.insert(name, value);
